@@ -11,6 +11,7 @@ import (
 	"log"
 	"math/rand"
 	"os"
+	"path/filepath"
 	"sync"
 	"time"
 
@@ -267,8 +268,21 @@ func RunSeq(cfg SeqConfig) (*SeqResult, error) {
 		case k < 8: // defective CAS upload
 			b := pool[rng.Intn(len(pool))]
 			var err error
-			kind := rng.Intn(5)
+			kind := rng.Intn(6)
 			switch kind {
+			case 5: // the file system refuses to create the file: the blob's directory is gone (Cache.tla: PutCreate fails)
+				sub := filepath.Join(dir, "cas.v2", b.Hash[:2])
+				if os.Remove(sub) != nil { // only an empty directory: nobody else's file is touched
+					err = errors.New("skipped")
+					break
+				}
+				err = c.Put(ctx, cache.CAS, b.Hash, int64(len(b.Data)), bytes.NewReader(b.Data))
+				if e := os.Mkdir(sub, 0o755); e != nil && !os.IsExist(e) {
+					return res, e
+				}
+				if int64(len(b.Data)) > cfg.MaxSize && err != nil {
+					break // refused before the file system was asked
+				}
 			case 0: // wrong hash
 				other := MkBlob([]byte("x" + b.Hash))
 				err = c.Put(ctx, cache.CAS, other.Hash, int64(len(b.Data)), bytes.NewReader(b.Data))
